@@ -156,14 +156,14 @@ def _judge(ctx, t, rng, select, keys_fn, cls, like_fold=True, cap=400, extra_cas
 
 
 _M_INT = ["1", "-1", "2", "3", "9223372036854775807", "-9223372036854775807"]
-_M_FLOAT = ["0.1", "0.2", "0.3", "0.5", "0.7"]
+_M_FLOAT = ["0.1", "0.2", "0.3", "0.5", "0.7", "1.0", "0.0", "2.0", "1e0"]
 
 
 def _gen_machine(rng, typ, depth, small=False):
     if depth <= 0 or rng.random() < 0.2:
         if typ == "int":
             if rng.random() < 0.6:
-                return T.ident(rng.choice(["b", "c"] if small else ["a", "b", "c"]))
+                return T.ident(rng.choice(["a", "b", "c"]))
             return T.lit("int", rng.choice(["1", "2", "3", "7", "21"] if small else _M_INT))
         if rng.random() < 0.5:
             return T.ident("f")
@@ -205,6 +205,10 @@ def machine_lane(ctx, rng, select, keys_fn, n, extra_case=None, profile=None, fl
             continue
         v = rng.choice(cands)
         lit = T.lit("int", str(v)) if isinstance(v, int) else T.lit("float", repr(v))
+        if rng.random() < 0.3:
+            # ... or against an integer column / literal (a mul 1.0 eq a: Int64 op Double is
+            # Double, so beyond 2**53 the product is NOT the integer)
+            lit = _gen_machine(rng, "int", 0)
         t = ("cmp", rng.choice(["eq", "eq", "ne", "lt", "le", "gt", "ge"]), e, lit)
         if profile is not None and not scalar.conforms(t, profile):
             continue
@@ -261,6 +265,32 @@ def big_list_lane(ctx, rng, select, keys_fn, n, extra_case=None, profile=None, s
                      observed=detail, keys=keys_fn(t, flags, prob), cls="big-in-list",
                      sig=[prob, "big-in-list", shape])
     return done
+
+
+def math_of_int_lane(ctx, rng, select, keys_fn, extra_case=None, profile=None):
+    """round / floor / ceiling applied to integer-typed operands (functions, columns, literals,
+    arithmetic) in every operator position - a translation that special-cases "already whole"
+    must still hand back ONE operand."""
+    inners = [T.call("indexof", T.ident("s"), T.S("b")), T.call("length", T.ident("s")),
+              T.call("year", T.ident("d")), T.ident("a"), T.I(3), ("bin", "add", T.ident("a"), T.I(1)),
+              T.call("indexof", T.ident("u"), T.ident("s"))]
+    n = 0
+    for mf in ("round", "floor", "ceiling"):
+        for inner in inners:
+            m = T.call(mf, inner)
+            shapes = [("cmp", "eq", ("bin", "mul", m, T.I(2)), T.I(2)), ("cmp", "eq", ("bin", "mul", T.I(2), m), T.I(2)),
+                      ("cmp", "eq", ("bin", "sub", T.ident("b"), m), T.I(0)), ("cmp", "eq", ("bin", "sub", m, T.ident("b")), T.I(0)),
+                      ("cmp", "lt", ("bin", "add", m, m), T.I(4)), ("cmp", "eq", ("bin", "mul", ("bin", "add", m, T.I(1)), T.I(3)), T.I(6)),
+                      ("cmp", "ge", ("bin", "mul", m, T.lit("float", "0.5")), T.lit("float", "0.5")), ("cmp", "eq", m, T.I(1))]
+            for t in shapes:
+                if profile is not None and not scalar.conforms(t, profile):
+                    continue
+                n += 1
+                if not ctx.mine(n):
+                    continue
+                ctx.count("math_of_int_filters")
+                _judge(ctx, t, rng, select, keys_fn, "math-of-int", True, 200, extra_case, profile)
+    return n
 
 
 def render_rows(rows):
